@@ -118,6 +118,7 @@ PROPS["C04"] = {
         T("SV.aePlan_steps_refuse", "whatever write of AppendEntries fails, the answer is not success"),
         T("SV.ae_stale_term_inert", "the stepped model's AppendEntries with an older term: no write, no state change, answer false with the server's term"),
         T("SV.ae_success_log", "the store after a successful AppendEntries (well-formed log, entries with ascending indexes, every failure and crash ordinal): every sent entry above the snapshot is at its index with the sent term (the sent entry itself or the identical-term entry already held), every index below all sent entries holds exactly what it held, the log stays well-formed"),
+        T("SV.run_sorted", "started on a well-formed image, every run of the stepped server (all events, failures, crashes) keeps the log well-formed: ae_success_log's hypothesis holds in every reachable state"),
         T("SV.applyAll_sorted", "the log's representation invariant (strictly ascending indexes, i.e. the list is a map) survives every durable write, hence every crash image"),
         T("SV.scanEntries_spec", "the entry scan splits the request into a held/covered prefix and the suffix to store, and reports a conflict exactly at the first entry to store"),
     ],
